@@ -24,6 +24,7 @@ func profile() sim.Profile {
 	pf.PTopology = 2
 	pf.MaxCycles = 2
 	pf.Contention = true
+	pf.PDRA = 4
 	return pf
 }
 
